@@ -22,7 +22,7 @@
 (* behind a member of the constant set Defects so that TLC can exhibit the *)
 (* defect (see DESIGN.md section 7).                                       *)
 (***************************************************************************)
-EXTENDS Integers, Sequences, FiniteSets, TLC, SequencesExt, FiniteSetsExt, Functions
+EXTENDS RtBase
 
 CONSTANTS NW,        \* number of workers
           Scripts,   \* Scripts[s] = sequence of operations; script 1 is the entry process
@@ -39,30 +39,6 @@ DefectNames == {"replace_responses",   \* environment.rs handle_process_results 
 Workers == 0..(NW - 1)
 Pids    == 0..(MaxPid - 1)
 NRegs   == 8
-
-None    == <<>>
-Some(v) == <<v>>
-
-(* ---- values: every value is a record with a kind field ---- *)
-Nil       == [k |-> "nil"]
-OkV       == [k |-> "tup", name |-> "Ok", fs |-> <<>>]
-IntV(n)   == [k |-> "int", n |-> n]
-PidV(p)   == [k |-> "pid", p |-> p]
-TupV(fs)  == [k |-> "tup", name |-> "", fs |-> fs]
-ErrV(e)   == [ok |-> FALSE, e |-> e]
-OkR(v)    == [ok |-> TRUE, v |-> v]
-
-RECURSIVE Eval(_, _)
-Eval(e, regs) ==
-  CASE e.e = "c" -> e.v
-    [] e.e = "r" -> regs[e.r]
-    [] e.e = "t" -> TupV([i \in 1..Len(e.fs) |-> Eval(e.fs[i], regs)])
-
-(* pids mentioned by a value *)
-RECURSIVE PidsIn(_)
-PidsIn(v) == CASE v.k = "pid" -> {v.p}
-               [] v.k = "tup" -> UNION {PidsIn(v.fs[i]) : i \in 1..Len(v.fs)}
-               [] OTHER -> {}
 
 VARIABLES
   cmdQ,       \* [Workers -> Seq(Command)]         transport.rs, environment -> worker
@@ -100,31 +76,9 @@ NewProc(script, regs, persistent, path) ==
 
 EmptyRegs == [i \in 1..NRegs |-> Nil]
 
-(* association lists sorted by key: <<k, v>> pairs *)
-AHas(a, k)    == \E i \in 1..Len(a) : a[i][1] = k
-AGet(a, k)    == a[CHOOSE i \in 1..Len(a) : a[i][1] = k][2]
-ADel(a, k)    == SelectSeq(a, LAMBDA e : e[1] # k)
-RECURSIVE AInsSorted(_, _)
-AInsSorted(a, e) == IF a = <<>> THEN <<e>>
-                    ELSE IF e[1] < Head(a)[1] THEN <<e>> \o a
-                    ELSE <<Head(a)>> \o AInsSorted(Tail(a), e)
-APut(a, k, v) == AInsSorted(ADel(a, k), <<k, v>>)
-AKeys(a)      == {a[i][1] : i \in 1..Len(a)}
-
 (* ---------------------------------------------------------------------- *)
 (* Select sources                                                         *)
 (* ---------------------------------------------------------------------- *)
-\* script form:  [k |-> "await", reg], [k |-> "recv", tys, filt, acc], [k |-> "timeout", d]
-\* evaluated:    [k |-> "await", t],   [k |-> "recv", tys, filt, acc], [k |-> "timeout", d]
-EvalSrc(s, regs) ==
-  IF s.k = "await" THEN [k |-> "await", t |-> regs[s.reg].p] ELSE s
-
-IsRecv(s) == s.k = "recv"
-RecvIndex(srcs, i) == Cardinality({j \in 1..(i - 1) : IsRecv(srcs[j])})   \* 0-based, as in the code
-Tag(v) == v.k
-Compatible(m, s) == \E i \in 1..Len(s.tys) : s.tys[i] = Tag(m)            \* check_message_compatible
-FilterAccepts(m, s) == \E i \in 1..Len(s.acc) : s.acc[i] = m               \* the filter body's verdict
-
 (* ---------------------------------------------------------------------- *)
 (* Worker-local state as one record, transformed by pure operators        *)
 (* ---------------------------------------------------------------------- *)
@@ -225,12 +179,6 @@ Requeue(S, order) == [S EXCEPT !.selecting = @ \ ToSet(order), !.runq = @ \o ord
 (* The documented readiness of a select source (used by the properties,   *)
 (* deliberately NOT by the scan below)                                    *)
 (* ---------------------------------------------------------------------- *)
-SrcReady(P, src, t) ==
-  CASE src.k = "await"   -> AHas(P.awaiting, src.t) /\ AGet(P.awaiting, src.t) # None
-    [] src.k = "recv"    -> \E j \in 1..Len(P.mailbox) :
-                               Compatible(P.mailbox[j], src) /\ (src.filt => FilterAccepts(P.mailbox[j], src))
-    [] src.k = "timeout" -> P.sel # None /\ P.sel[1].start # None /\ t - P.sel[1].start[1] >= src.d
-
 (* ---- select (executor.rs handle_select .. complete_select) ---- *)
 \* complete_select: tear the state down, bind the value, advance; record the completion for L1
 Complete(S, p, i, v, removed) ==
@@ -519,40 +467,56 @@ EnvHandle(w) ==
                /\ UNCHANGED <<cmdQ, router, nextPid, pending, obs>>
      /\ UNCHANGED <<runq, spawning, selecting, awaited, awaitersFor, resultReq, proc, now>>
 
-Tick(d) ==
+TickAny(d) ==
   /\ now + d <= MaxTick
   /\ now' = now + d
   /\ UNCHANGED <<cmdQ, evtQ, runq, spawning, selecting, awaited, awaitersFor, resultReq,
                  proc, router, nextPid, pending, outcome, obs>>
 
+\* time is observable only through select timeouts, so the clock moves only while one is pending
+TimeoutPending == \E p \in Pids : /\ proc[p].live /\ proc[p].sel # None /\ proc[p].result = None
+                                   /\ \E i \in 1..Len(proc[p].sel[1].srcs) : proc[p].sel[1].srcs[i].k = "timeout"
+
+Tick(d) ==
+  /\ TimeoutPending
+  /\ TickAny(d)
+
 (* ---------------------------------------------------------------------- *)
-Init ==
-  /\ cmdQ = [w \in Workers |-> IF w = 0 THEN <<[t |-> "ResumeProcess", id |-> 0, script |-> 1],
-                                               [t |-> "GetResult", p |-> 0]>> ELSE <<>>]
-  /\ evtQ = [w \in Workers |-> <<>>]
-  /\ runq = [w \in Workers |-> <<>>]
-  /\ spawning = [w \in Workers |-> {}]
-  /\ selecting = [w \in Workers |-> {}]
-  /\ awaited = [w \in Workers |-> {}]
-  /\ awaitersFor = [w \in Workers |-> <<>>]
-  /\ resultReq = [w \in Workers |-> {}]
-  /\ proc = [p \in Pids |-> IF p = 0
+InitState(entry) ==
+  [cmdQ |-> [w \in Workers |-> IF w = 0 THEN <<[t |-> "ResumeProcess", id |-> 0, script |-> entry],
+                                               [t |-> "GetResult", p |-> 0]>> ELSE <<>>],
+   evtQ |-> [w \in Workers |-> <<>>],
+   runq |-> [w \in Workers |-> <<>>],
+   spawning |-> [w \in Workers |-> {}],
+   selecting |-> [w \in Workers |-> {}],
+   awaited |-> [w \in Workers |-> {}],
+   awaitersFor |-> [w \in Workers |-> <<>>],
+   resultReq |-> [w \in Workers |-> {}],
+   \* the REPL's persistent process exists and sleeps (environment.rs start_process(None))
+   proc |-> [p \in Pids |-> IF p = 0
                             THEN [NewProc(0, EmptyRegs, TRUE, <<>>) EXCEPT !.result = Some(OkR(Nil))]
-                            ELSE NoProc]
-  /\ router = (0 :> 0)
-  /\ nextPid = 1
-  /\ pending = <<>>
-  /\ now = 0
-  /\ outcome = None
-  /\ obs = [arrived |-> [p \in Pids |-> <<>>],
+                            ELSE NoProc],
+   router |-> (0 :> 0),
+   nextPid |-> 1,
+   pending |-> <<>>,
+   now |-> 0,
+   outcome |-> None,
+   obs |-> [arrived |-> [p \in Pids |-> <<>>],
             sent |-> [p \in Pids |-> [q \in Pids |-> <<>>]],
             selects |-> <<>>, spawns |-> <<>>, updates |-> <<>>,
-            envGot |-> [p \in Pids |-> {}]]
+            envGot |-> [p \in Pids |-> {}]]]
+
+Init ==
+  LET I == InitState(1) IN
+  /\ cmdQ = I.cmdQ /\ evtQ = I.evtQ /\ runq = I.runq /\ spawning = I.spawning
+  /\ selecting = I.selecting /\ awaited = I.awaited /\ awaitersFor = I.awaitersFor
+  /\ resultReq = I.resultReq /\ proc = I.proc /\ router = I.router /\ nextPid = I.nextPid
+  /\ pending = I.pending /\ now = I.now /\ outcome = I.outcome /\ obs = I.obs
 
 Next ==
   \/ \E w \in Workers : \E k \in 0..Len(cmdQ[w]), fuel \in 0..MaxFuel : WorkerStep(w, k, fuel)
   \/ \E w \in Workers : EnvHandle(w)
-  \/ \E d \in 1..MaxTick : Tick(d)
+  \/ Tick(1)
 
 Spec == Init /\ [][Next]_vars
 =============================================================================
